@@ -20,6 +20,8 @@ import (
 	corev1 "k8s.io/api/core/v1"
 	"k8s.io/client-go/tools/cache"
 	"k8s.io/klog/v2"
+
+	"github.com/koordinator-sh/koordinator/apis/extension"
 )
 
 // todo the eventHandler's operation should be a complete transaction in the future work.
@@ -126,5 +128,9 @@ func (g *Plugin) handlePodDelete(pod *corev1.Pod) {
 		klog.V(5).Infof("OnPodDeleteFunc %v delete success, quota: %v, tree: %v", klog.KObj(pod), quotaName, treeID)
 	} else {
 		klog.Errorf("OnPodDeleteFunc %v delete failed, quota: %v, tree: %v", klog.KObj(pod), quotaName, treeID)
+	}
+	if quotaName != extension.DefaultQuotaName {
+		// a pod created before its quota still sits in the default quota until the next migration tick
+		g.groupQuotaManager.OnPodDelete(extension.DefaultQuotaName, pod)
 	}
 }
